@@ -53,13 +53,15 @@ pub fn run(ctx: &mut Ctx) {
     for (name, layers) in guide_stacks() {
         for outcome_code in 0..4u8 {
             let outs: Vec<bool> = (0..3).map(|i| outcome_code & (1 << i) == 0).collect();
-            for multiply in [false, true] {
-                if multiply && !layers.iter().any(|m| m.can_multiply()) {
+            for multiply in [0u8, 1, 2] {
+                if multiply > 0 && !layers.iter().any(|m| m.can_multiply()) {
                     continue;
                 }
+                let alt = multiply == 2;
+                let multiply = multiply > 0;
                 let w = World::new(0, 10, InnerMode::Script, 1);
                 let plog: Arc<Mutex<ProbeLog>> = Default::default();
-                let mode_for = |m: Mw| if multiply && m.can_multiply() { Mode::Multiply } else { Mode::Plain };
+                let mode_for = |m: Mw| if multiply && m.can_multiply() { if alt { Mode::MultiplyAlt } else { Mode::Multiply } } else { Mode::Plain };
                 let mut a = compose(&layers, &mode_for, GatedInner::new(w.inner.clone()), &plog);
                 let reqs: Vec<Req> = (0..3).map(|i| Req::new(40 + i, (i % 2) as u8 + 1)).collect();
                 let mut seen = vec![];
@@ -84,7 +86,7 @@ pub fn run(ctx: &mut Ctx) {
                     seen.push(drive(&w, svc, req.clone()));
                     ctx.rep.evaluations += 1;
                 }
-                let config = format!("stack {name} {:?} multiply={multiply} outcomes={outs:?}", layers.iter().map(|m| m.name()).collect::<Vec<_>>());
+                let config = format!("stack {name} {:?} multiply={multiply} alt_timing={alt} outcomes={outs:?}", layers.iter().map(|m| m.name()).collect::<Vec<_>>());
                 if !multiply {
                     judge(ctx, &format!("stack {name}"), &config, &w, &plog, &reqs, &seen, false, None);
                 } else {
